@@ -594,7 +594,6 @@ var guardExceptions = []guardException{
 	{"syntax.(*parser).addToConcatenate", "p.pattern[pos]", "callers pass a saved start position and a count with pos+cch <= currentPos (scanRegex: startpos < endpos <= currentPos; scanReplacement likewise)"},
 	{"syntax.(*parser).addToConcatenate", "p.pattern[pos:pos + cch]", "same argument: pos+cch <= currentPos <= len"},
 	{"syntax.(*parser).addToConcatenate", "p.pattern[i]", "pos <= i < pos+cch <= currentPos"},
-	{"syntax.(*parser).isTrueQuantifier", "charAt(startpos)", "guarded by the nChars := charsRight(); nChars == 0 -> return test at entry (sum constraint pos-startpos < charsRight() outside the domain; argued by hand)"},
 	{"syntax.(*parser).isTrueQuantifier", "charAt(pos)", "pos advances only while --nChars > 0, so pos-startpos < charsRight() at entry"},
 	{"syntax.(*parser).scanRegex", "charAt(endpos - 1)", "reached only under startpos < endpos where both are saved positions, so 0 <= endpos-1 < currentPos"},
 }
